@@ -797,20 +797,35 @@ def genexp_loops(fn) -> int:
             if comp is None or len(comp.generators) != 1 or comp.generators[0].is_async:
                 continue
             gen = comp.generators[0]
-            if not (isinstance(gen.target, ast.Name) and isinstance(comp.elt, ast.Name) and comp.elt.id == gen.target.id):
+            tnames = [n.id for n in ast.walk(gen.target) if isinstance(n, ast.Name)]
+            if not (isinstance(comp.elt, ast.Name) and tnames.count(comp.elt.id) == 1):
                 continue
             v = s.target.id
-            if any(isinstance(n, ast.Name) and n.id == v for n in ast.walk(comp)) and v != gen.target.id:
+            e = comp.elt.id
+            if any(isinstance(n, ast.Name) and n.id == v for n in ast.walk(comp)) and v != e:
+                continue
+            # the other names bound by the generator become locals of the function: they must be fresh
+            others = [x for x in tnames if x != e]
+            inside = {id(n) for n in ast.walk(comp)}
+            outside = {n.id for n in ast.walk(fn) if isinstance(n, ast.Name) and id(n) not in inside}
+            if any(o in outside and o != "_" for o in others):
                 continue
             conds = [ast_copy(c) for c in gen.ifs]
             for c in conds:
                 for n in ast.walk(c):
-                    if isinstance(n, ast.Name) and n.id == gen.target.id:
+                    if isinstance(n, ast.Name) and n.id == e:
                         n.id = v
+            new_target = ast_copy(gen.target)
+            for n in ast.walk(new_target):
+                if isinstance(n, ast.Name):
+                    if n.id == e:
+                        n.id = v
+                    n.ctx = ast.Store()
             inner = s.body
             for c in reversed(conds):
                 inner = [ast.If(test=c, body=inner, orelse=[])]
             s.iter = gen.iter
+            s.target = new_target
             s.body = inner
             ast.fix_missing_locations(s)
             if drop is not None:
